@@ -1,10 +1,62 @@
 """C04 check driver."""
 from pyvc.driver import Check
-from props import c04
+from props import c04, c04_concrete
+
+ASSUMPTIONS = [
+    "Python ints are mathematical; timedelta fields are normalized (0 <= seconds < 86400, 0 <= microseconds < 10**6, "
+    "|days| <= 999999999); -td is the normalized representation of the negated total; divmod by a positive constant is "
+    "floor division; f'{n}' / f'{n:06}' print the decimal digits of a non-negative int (zero-padded to six).",
+    "The duration writer is proved for datetime.timedelta inputs (pendulum.Duration inputs with years/months are outside U).",
+    "Independent reader: ISO 8601 duration grammar ['-']P[nY][nM][nD][T[nH][nM][n[.ffffff]S]] with Y=365d, M=30d.",
+    "Value-level parse-back of the standard library printers (str/repr/isoformat of int, float, Decimal, Fraction, UUID, "
+    "paths, date, time, datetime) and of pendulum.parse on ISO text is assumed, not proved; it is sampled by the bounded "
+    "cross-check (boundary-biased).  Floats: epoch seconds are passed to datetime.fromtimestamp / timedelta(seconds=) "
+    "unchanged (machine arithmetic inside the standard library is not modelled).",
+    "External calls in the routing obligations are uninterpreted functions of their arguments; datetime.timedelta."
+    "__floordiv__(td, timedelta(microseconds=1)) is the exact microsecond count.",
+    "unixtime(datetime.time) combines the time with today's date (documented): it is not a function of its input and is "
+    "excluded from the numeric-convention clauses.",
+]
+KF_ZERO = "C04-zero-duration"
+
+
+def searcher(ob):
+    fails, n, d = c04_concrete.search(stop_at=None)
+    fails = [f for f in fails if not (f["kind"] == "iso-wellformed" and f["value"] == "datetime.timedelta(0)")]
+    if fails:
+        return {"found": True, "kind": "c04-case", "case": fails[0], "searched": n}
+    return {"found": False, "searched": n, "engine": ob.meta.get("engine") or ob.meta.get("why"),
+            "note": "scalar boundary pool: text and numeric wire forms round trip (bounded)"}
+
+
+def replay(data):
+    case = data.get("case")
+    if not case:
+        print("replay: no concrete input recorded for", data.get("obligation"), data.get("solver"))
+        return 1
+    r = c04_concrete.run_recorded(case)
+    print("replay", case["kind"], case["type"], case["value"], "->", r)
+    return 1 if r else 0
 
 
 def main(tier, seed):
     chk = Check("C04", tier, seed)
+    chk.assumptions = list(ASSUMPTIONS)
     c04.obligations(chk)
-    chk.resolve_failures(None)
+    # known finding: witness replay on the real code
+    fails, n, d = c04_concrete.search(stop_at=None)
+    known = [f for f in fails if f["kind"] == "iso-wellformed" and f["value"] == "datetime.timedelta(0)"]
+    other = [f for f in fails if f not in known]
+    kf = [k for k in Check.known_findings("C04") if k["id"] == KF_ZERO]
+    if known and kf:
+        chk.kf_lines.append(f"KNOWN-FINDING: property=C04 {kf[0]['print']}")
+    elif known and not kf:
+        other = known + other
+    chk.bounded.append({"name": "bounded cross-check: canonical text / numeric wire forms over the scalar boundary pool (real code)",
+                        "evaluations": n, "distinct_nontrivial": d, "failures": len(other),
+                        "rule": "ints, floats, Decimals, Fractions, UUIDs, paths (incl. numeric-looking), enums by value, dates, datetimes/times at 9 offsets incl. fold, 14 timedeltas (weeks, 59.999999 s, negatives, extremes) x 4 text carriers; epoch numbers; temporal->number/text"})
+    if tier == "thorough" or other:
+        for f in other[:3]:
+            chk.violation("bounded-cross-check :: " + f["kind"], {"found": True, "kind": "c04-case", "case": f}, True)
+    chk.resolve_failures(searcher)
     return chk.finish()
